@@ -105,6 +105,73 @@ func integerCodecRule(P *Program, R *Report) {
 			return isC && bigMethod(c) == "SetBytes" && desc(callArgs(c)[0]) == "arg#0"
 		}})
 	}
+	// the sign that is tested is the sign of what was decoded: after the test the receiver is not written again
+	// (a decoder that tests the receiver first and fills it afterwards tests the previous value - zero for every
+	// integer the json package allocates)
+	for _, k := range []string{kIntUnmXML, kIntUnmJSON} {
+		fn := P.Func(k)
+		if fn == nil || fn.Blocks == nil {
+			continue
+		}
+		writes := func(i ssa.Instruction) bool {
+			c, ok := i.(ssa.CallInstruction)
+			if !ok {
+				return false
+			}
+			args := c.Common().Args
+			if cc, isCall := i.(*ssa.Call); isCall {
+				if m := bigMethod(cc); m != "" {
+					return bigMutators[m] && len(args) > 0 && (desc(args[0]) == "arg#0" || desc(stripConv(args[0])) == "arg#0" || strings.HasSuffix(desc(args[0]), ".Go(arg#0)"))
+				}
+			}
+			n := calleeName(c)
+			if strings.Contains(n, "Unmarshal") || strings.Contains(n, "Decode") || strings.Contains(n, "Scan") || strings.Contains(n, "SetString") {
+				for _, a := range args {
+					if desc(a) == "arg#0" {
+						return true
+					}
+				}
+			}
+			return false
+		}
+		nTests, late := 0, []string{}
+		allInstrs(fn, func(i ssa.Instruction) {
+			c, ok := i.(*ssa.Call)
+			if !ok || bigMethod(c) != "Sign" || desc(callArgs(c)[0]) != "arg#0" {
+				return
+			}
+			nTests++
+			seen := map[*ssa.BasicBlock]bool{}
+			var work []*ssa.BasicBlock
+			// the rest of the test's own block, then everything reachable from it
+			after := false
+			for _, j := range c.Block().Instrs {
+				if j == ssa.Instruction(c) {
+					after = true
+					continue
+				}
+				if after && writes(j) {
+					late = append(late, P.Pos(j.Pos()))
+				}
+			}
+			work = append(work, c.Block().Succs...)
+			for len(work) > 0 {
+				b := work[0]
+				work = work[1:]
+				if seen[b] {
+					continue
+				}
+				seen[b] = true
+				for _, j := range b.Instrs {
+					if writes(j) {
+						late = append(late, P.Pos(j.Pos()))
+					}
+				}
+				work = append(work, b.Succs...)
+			}
+		})
+		R.decide(rule, k+":sign-of-decoded-value", "the receiver is not written after its sign was tested (the tested sign is the decoded value's)", nTests >= 1 && len(late) == 0, fmt.Sprintf("%d sign tests; written afterwards at: %s", nTests, strings.Join(late, ", ")), P.Pos(fn.Pos()))
+	}
 	if fn := mustFunc(P, R, rule, kIntMarText); fn != nil {
 		mp(P, R, rule, kIntMarText+":refuses-negative", "text is produced only for a non-negative integer", fn, AcceptNilErr(1), &MustPass{Match: func(a Atom) bool {
 			g, ok := parseGuard(a, nil)
